@@ -389,8 +389,6 @@ def plan_damages(rng, lines, thorough, budget):
     ks = list(range(n + 1))
     if not thorough and n > 160:
         ks = sorted(set(rng.sample(ks, 120) + [0, 1, n - 1, n]))
-    if thorough and n > 1600:
-        ks = sorted(set(rng.sample(ks, 300) + [0, 1, n - 1, n]))
     ds += [(("trunc", k), "trunc") for k in ks]
     if n:
         last = lines[-1]
@@ -532,7 +530,12 @@ def collect(ctx, rep, ml, fmt):
         bi = len(base_lines)
         base_lines.append(lines)
         budget = 40 if len(lines) > 60 else 200
-        for d, kind in plan_damages(rng, lines, thorough, budget):
+        plan = plan_damages(rng, lines, thorough, budget)
+        # every planned damage goes through the implementation and the oracle; the comparison with the model inside Coq
+        # re-parses the whole text per case, so for long texts it gets a sample (always incl. what the oracle flagged)
+        cap = max(80, (200_000 if thorough else 60_000) // max(len(lines), 1))
+        in_coq = set(range(len(plan))) if len(plan) <= cap else set(rng.sample(range(len(plan)), cap)) | {0}
+        for di, (d, kind) in enumerate(plan):
             dt = damaged_text(lines, d)
             out = observe(ml, fmt, dt)
             rep.count(f"{fmt}:{kind}")
@@ -542,8 +545,9 @@ def collect(ctx, rep, ml, fmt):
             rep.case(key=key, sample={"fmt": fmt, "base": bname, "damage": list(d), "outcome": out[0] if out[0] != "err" else out[1]})
             if v:
                 rep.violate(v[0], v[1], {"fmt": fmt, "lines": lines, "damage": list(d), "kind": kind})
-            if out[0] == "hang":
+            if out[0] == "hang" or (di not in in_coq and not v):
                 continue
+            rep.count(f"{fmt}:compared-in-coq")
             cases.append(f"({cq_nat(bi)}, {damage_term(d)}, {obs_term(out, table)})")
             meta.append((bname, d, kind, out[0]))
             if fmt == "mol2":
